@@ -9,6 +9,8 @@ CONSTANTS
   HereAt = 0
   HereUnits = 0
   SigpipeMode = "ignored"
+  CapRedirect = FALSE
+  CapCloseMode = "always"
   CapReadMode = "sequential"
   Capture = TRUE
 INVARIANT ShellAlive
